@@ -1,6 +1,8 @@
 package main
 
 import (
+	"runtime/debug"
+
 	"fmt"
 	"go/constant"
 	"go/token"
@@ -716,7 +718,7 @@ func (e *Engine) verifyFunction(fn *ssa.Function, con *Contract) (q *Query, fc *
 				err = fmt.Errorf("%s: unsupported: %s", fn, string(ue))
 				return
 			}
-			err = fmt.Errorf("%s: internal error in the VC generator: %v", fn, r)
+			err = fmt.Errorf("%s: internal error in the VC generator: %v\n%s", fn, r, debug.Stack())
 		}
 	}()
 	fc.s0 = fc.newState()
